@@ -27,19 +27,47 @@ RULE = (
 )
 ASSUMPTIONS = [
     "per-operation facts (qubits, keys, parameters, inverse, value equality incl. tags) are taken from the ops layer; only "
-    "Circuit/Moment/FrozenCircuit bookkeeping is recomputed by the model",
-    "single-op EARLIEST insert whose preceding moment conflicts: both 'new moment at the index' (insert_strategy.py) and "
-    "'share the existing moment at the index' (repository tests, property statement) are accepted",
+    "Circuit/Moment/FrozenCircuit bookkeeping is recomputed by the model (vf/ref/circuit_model.py, no cirq import)",
+    "single-op EARLIEST insert whose preceding moment conflicts (or index 0): both 'new moment at the index' "
+    "(insert_strategy.py) and 'share the existing moment at the index' (repository tests, property statement) are accepted",
+    "multi-op mid-circuit EARLIEST insert (also each index group of batch_insert, and the left-over ops of "
+    "insert_into_range): item j of the flattened tree is only required to precede conflicting existing ops at pre-edit "
+    "index >= k + j (the carve-out of the statement); every other order clause is enforced in full",
     "insert_into_range / insert_at_frontier / concat_ragged / zip / batch_insert_into document qubit collisions only: "
-    "measurement-key order is not demanded from them",
+    "measurement-key order is not demanded from them (concat_ragged was adjudicated OUT-OF-SCOPE, see report)",
+    "reachable_frontier_from: the docstring's reachability definition with frontier indices read as lying between moments; "
+    "findall_operations_until_blocked: model only compared where 'light cone' is unambiguous, live == rebuilt always",
+    "returned index of insert: single op p+1 <= r <= max(k, p+1); several items: all inserted ops < r <= len; empty tree: unchecked",
     "unitary comparison atol 1e-9 (same operations in the same moments, so only summation order could differ)",
 ]
-SENSITIVITY = [
-    "_mutated keeps _all_qubits", "_mutated keeps _frozen", "insert keeps placement cache mid-circuit",
-    "placement cache forgets control keys", "Moment.with_operation drops cached measurement keys",
-    "__imul__ without _mutated", "_insert_latest returned index off by one", "earliest_available_moment ignores control keys",
-    "batch_remove edits in place", "zip RIGHT alignment off by one", "concat_ragged collision time off by one",
-    "prev_moment_operating_on max_distance", "findall_operations_between crossing filter", "insert_into_range returns start",
+SENSITIVITY = [  # = mutants/c05.json, all KILLED by the quick tier
+    '_mutated keeps _all_qubits',
+    '_mutated keeps _frozen',
+    '_mutated keeps _parameter_names',
+    'insert keeps placement cache mid-circuit',
+    'placement cache forgets control keys',
+    'Moment.with_operation drops cached measurement keys',
+    '__imul__ without _mutated',
+    '_insert_latest returned index off by one',
+    'earliest_available_moment ignores control keys',
+    'batch_remove edits in place',
+    'zip RIGHT alignment off by one',
+    'concat_ragged collision time off by one',
+    'prev_moment_operating_on max_distance',
+    'findall_operations_between crossing filter',
+    'insert_into_range scans past busy moment only once',
+    'INLINE ignores key conflicts (_can_add_op_at)',
+    'reachable_frontier_from ignores start of other qubit',
+    '__radd__ appends instead of prepending',
+    'clear_operations_touching skips moment 0',
+    'insert_at_frontier pushes at max instead of min',
+    'FrozenCircuit shares the moment list',
+    '_group_into_moment_compatible ignores control-after-measure',
+    'with_tags keeps a fresh placement cache (reverts fix 402562f)',
+    'batch_insert shifts by returned index (reverts fix c2d6187)',
+    'prev_moment default distance = len (reverts fix 0961180)',
+    'transform_qubits drops the last moment',
+    'factorize keeps ops of the first qubit only',
 ]
 
 QUBITS = cirq.LineQubit.range(5)  # generation uses 0..3; 4 is only reachable through transform_qubits
@@ -131,7 +159,6 @@ class Interp:
         self.val = {}
         self.next_id = 0
         self.features = set()
-        self.f11_armed = False
         self.frozen_snap = None
         self.kinds = collections.Counter()
         self.stats = collections.Counter()
@@ -275,7 +302,6 @@ class Interp:
     def adopt(self, circuit, layout):
         self.c = circuit
         self.layout = layout
-        self.f11_armed = False
 
     def instances(self):
         return [(i, x) for i, m in enumerate(self.layout) for x in m]
@@ -289,10 +315,6 @@ class Interp:
                 continue
             name = a["a"]
             if name == "query":
-                qn = a.get("q") if isinstance(a.get("q"), list) else ["*"]
-                if ("*" in qn or "nextprev" in qn) and not isinstance(a.get("d"), int) and len(self.layout) >= 1 \
-                        and a.get("past") and self.idx(a.get("i", 0), 0, len(self.layout) + 2) > len(self.layout):
-                    self.features.add("F13")
                 if not self.detect:
                     self.a_query(a)
                     self.seen_query = self.seen_query or n_edits > 0
@@ -387,18 +409,10 @@ class Interp:
             self._insert_checks(what, sname, [], post, items, 0, None)
         self.adopt(c, post)
 
-    def _note_f11(self, sname, k, n):
-        if self.f11_armed:
-            if sname == "EARLIEST" and k >= n:
-                self.features.add("F11")
-            else:
-                self.f11_armed = False
-
     def a_append(self, a):
         sname, S = self.strat(a)
         pre = self.layout
         tree, items = self.build_tree(a.get("tree"))
-        self._note_f11(sname, len(pre), len(pre))
         if a.get("single") and len(tree) == 1:
             tree = tree[0]
         self.c.append(tree, strategy=S)
@@ -413,7 +427,6 @@ class Interp:
         i = self.idx(a.get("i", 0), -3, n + 3)
         k = M.clamp_index(i, n)
         tree, items = self.build_tree(a.get("tree"))
-        self._note_f11(sname, k, n)
         if a.get("single") and len(tree) == 1:
             tree = tree[0]
         r = self.c.insert(i, tree, strategy=S)
@@ -424,7 +437,6 @@ class Interp:
     def a_iir(self, a):
         pre = self.layout
         n = len(pre)
-        self.f11_armed = False
         tree, items = self.build_tree(a.get("tree"), moments_ok=False)
         start = self.idx(a.get("st", 0), 0, n)
         end = self.idx(a.get("en", 0), start, n)
@@ -456,7 +468,6 @@ class Interp:
     def a_iaf(self, a):
         pre = self.layout
         n = len(pre)
-        self.f11_armed = False
         tree, items = self.build_tree(a.get("tree"), moments_ok=False)
         ins = [x for _, ids in items for x in ids]
         if not ins:
@@ -498,7 +509,6 @@ class Interp:
     def a_binsert(self, a):
         pre = self.layout
         n = len(pre)
-        self.f11_armed = False
         what = "batch_insert"
         entries = []
         for e in a.get("ins", []) if isinstance(a.get("ins"), list) else []:
@@ -507,7 +517,6 @@ class Interp:
                 if a.get("single") and len(tree) == 1:
                     tree = tree[0]
                 entries.append((self.idx(e[0], 0, n), tree, items))
-        shadow = self.c.copy()
         self.c.batch_insert([(i, t) for i, t, _ in entries])
         post = self.read(self.c, what)
         order = sorted(range(len(entries)), key=lambda j: entries[j][0])
@@ -526,25 +535,12 @@ class Interp:
         self.need_ids(what, pre, post, ins)
         if any(i < n for i in groups):
             self.stats["mid"] += 1
-        # F12: replay the documented steps with Circuit.insert; the feature is present when, for a group that is not
-        # the last one, insert() reports a larger advance than the number of moments it created (it placed operations
-        # into existing moments at/after the insertion point), so that every later group is shifted too far.
-        shift = 0
-        glist = list(groups.items())
-        for gi, (i, js) in enumerate(glist[:-1]):
-            before = len(shadow)
-            r = shadow.insert(i + shift, [entries[j][1] for j in reversed(js)], cirq.InsertStrategy.EARLIEST)
-            adv = max(0, r - (i + shift))
-            if adv > len(shadow) - before:
-                self.features.add("F12")
-            shift += adv
         self.order(what, pre, post, inserted=inserted, point=point, slack=slack)
         self.layout = post
 
     def a_binto(self, a):
         pre = self.layout
         n = len(pre)
-        self.f11_armed = False
         what = "batch_insert_into"
         want = M.copy_layout(pre)
         args, err = [], None
@@ -608,7 +604,6 @@ class Interp:
 
     def a_bremove(self, a):
         pre = self.layout
-        self.f11_armed = False
         what = "batch_remove"
         entries, err = self._bad_entries(a, self._choose(a), len(pre))
         args = [(i, self.val[x] if x is not None else self._phantom()) for i, x in entries]
@@ -628,7 +623,6 @@ class Interp:
 
     def a_breplace(self, a):
         pre = self.layout
-        self.f11_armed = False
         what = "batch_replace"
         chosen = self._choose(a)
         entries, err = self._bad_entries(a, chosen, len(pre))
@@ -662,7 +656,6 @@ class Interp:
     def a_clear(self, a):
         pre = self.layout
         n = len(pre)
-        self.f11_armed = False
         qs = [q % 5 for q in a.get("qs", []) if isinstance(q, int)]
         ms = [self.idx(r, -2, n + 1) for r in a.get("ms", []) if isinstance(r, int)]
         self.c.clear_operations_touching([QUBITS[q] for q in qs], ms)
@@ -674,7 +667,6 @@ class Interp:
     def a_setitem(self, a):
         pre = self.layout
         n = len(pre)
-        self.f11_armed = False
         want = M.copy_layout(pre)
         if "lo" in a:
             lo, hi = self.idx(a["lo"], 0, n), self.idx(a.get("hi", 0), 0, n)
@@ -700,7 +692,6 @@ class Interp:
     def a_del(self, a):
         pre = self.layout
         n = len(pre)
-        self.f11_armed = False
         want = M.copy_layout(pre)
         if "lo" in a:
             lo, hi = self.idx(a["lo"], 0, n), self.idx(a.get("hi", 0), 0, n)
@@ -724,7 +715,6 @@ class Interp:
     def _finish_pure(self, what, a, pre, result, post, inplace=False):
         if inplace:
             self.layout = post
-            self.f11_armed = False
             return
         self.unchanged(what, pre)
         if a.get("adopt"):
@@ -760,7 +750,6 @@ class Interp:
         want = M.append_earliest(pre, self.info, items)
         if mode == "iadd":
             what = "+="
-            self._note_f11("EARLIEST", len(pre), len(pre))
             obj = self.c
             self.c += arg
             if self.c is not obj:
@@ -795,7 +784,6 @@ class Interp:
             post = self.read(self.c, "*=")
             self.expect_exact("*=", pre, post, want)
             self.layout = post
-            self.f11_armed = False
             return
         recv = self.c.freeze() if a.get("frozen") else self.c
         result = reps * recv if mode == "rmul" else recv * reps
@@ -882,19 +870,6 @@ class Interp:
         post = self.read(result, what)
         self.need_ids(what, pre, post, _flat(olay))
         self.expect_exact(what, pre, post, want)
-        # property statement: operations that conflict on a measurement key keep the order the concatenation prescribes
-        l1, l2 = (pre, olay) if a.get("first", True) else (olay, pre)
-        wpos = M.instance_positions(want)
-        bad = [(x, y) for x in set(_flat(l1)) for y in set(_flat(l2)) if M.conflict_k(self.info[x], self.info[y])
-               and not max(p for (z, _), p in wpos.items() if z == x) < min(p for (z, _), p in wpos.items() if z == y)]
-        if bad:
-            self.features.add("F14")
-            if not self.detect:
-                ppos = M.instance_positions(post)
-                for x, y in bad:
-                    if not max(p for (z, _), p in ppos.items() if z == x) < min(p for (z, _), p in ppos.items() if z == y):
-                        self.fail(f"{what}: I3 operation id {y} of the second circuit is not after operation id {x} of the first "
-                                  f"circuit although they conflict on a measurement key", pre, post)
         if pre and olay:
             self.stats["mid"] += 1
         self._finish_pure(what, a, pre, result, post)
@@ -933,8 +908,6 @@ class Interp:
         if result.tags != self.c.tags + tuple(tags):
             self.fail("with_tags: tags of the result are not the old tags plus the new ones")
         self.c = result
-        if tags and pre:
-            self.f11_armed = True
 
     def a_copy(self, a):
         pre = self.layout
@@ -1092,22 +1065,24 @@ def _features(recipe):
     return _DETECT_CACHE[h]
 
 
-KNOWN_FEATURES = {
-    # Circuit.with_tags(non-empty) on a non-empty circuit followed by an EARLIEST append while the fresh placement cache lives
-    "F11_with_tags_fresh_placement_cache": lambda sub, r: "F11" in _features(r),
-    # batch_insert with >= 2 index groups where an earlier group shared an existing moment at/after its insertion point
-    "F12_batch_insert_overshift": lambda sub, r: "F12" in _features(r),
-    # query prev_moment_operating_on(qubits, end_moment_index > len(circuit)) with the default max_distance
-    "F13_prev_moment_end_past_circuit": lambda sub, r: "F13" in _features(r),
-    # concat_ragged of circuits where an operation of the later circuit shares a measurement key with (measure/measure or
-    # measure/control) but no qubit-collision-forced position after an operation of the earlier circuit
-    "F14_concat_ragged_ignores_keys": lambda sub, r: "F14" in _features(r),
-}
+# No pending or known findings: F11 (with_tags kept a fresh placement cache), F12 (batch_insert over-shift) and F13
+# (prev_moment_operating_on past the end) were repaired in /repo (402562f, c2d6187, 0961180); their recipes run as
+# explicit examples below.  A future predicate can use ``_features(recipe)`` (interpreter in detect mode).
+KNOWN_FEATURES = {}
+
+FIXED_EXAMPLES = [
+    {"actions": [{"a": "new", "s": 0, "tree": [["X", [0], 0], ["CZ", [0, 1], 0]]}, {"a": "tags", "t": ["t"]},
+                 {"a": "append", "s": 0, "tree": [["Y", [1], 0]]}]},
+    {"actions": [{"a": "new", "s": 1, "tree": [["X", [0], 0], ["Y", [1], 0], ["Z", [2], 0], ["H", [0], 0]]},
+                 {"a": "binsert", "ins": [[1, [["S", [0], 0]]], [2, [["T", [2], 0]]]]}]},
+    {"actions": [{"a": "new", "s": 1, "tree": [["X", [0], 0], ["Y", [1], 0], ["Z", [1], 0]]},
+                 {"a": "query", "q": ["nextprev"], "qs": [0], "i": 4, "d": None, "past": True}]},
+]
 
 from vf.gen.c05_history import history  # noqa: E402
 
 SUBCHECKS = [
-    SubCheck("history", history("all", 10, 30), oracle, quick=8000, thorough=160000, shards_quick=16, shards_thorough=32,
+    SubCheck("history", history("all", 10, 30), oracle, examples=FIXED_EXAMPLES, quick=8000, thorough=160000, shards_quick=16, shards_thorough=32,
              essential={"mid_circuit_edit": 0.5, "non_earliest": 0.5, "conflicting_pair": 0.7, "query_between_edits": 0.5}),
     SubCheck("append_cache", history("append", 8, 24, pool="keys"), oracle, quick=5000, thorough=100000, shards_quick=8, shards_thorough=16,
              essential={"query_between_edits": 0.4, "key_ops": 0.5}),
